@@ -20,6 +20,7 @@ INVARIANT NoReduceOnlyWhenFlat
 PROPERTY MTMStep
 PROPERTY ReduceOnlyNeverIncreasesOrFlips
 PROPERTY AvgCostStep
+PROPERTY FlushPerFill
 PROPERTY RejectIff
 PROPERTY SubmitCancelRestores
 PROPERTY FinalIsFinal
